@@ -680,18 +680,22 @@ RECURSIVE ArgTuples(_, _)
 ArgTuples(ps, n) == IF Len(ps) = 0 THEN {<<>>}
                     ELSE {<<a>> \\o rest : a \\in ArgPick(Head(ps), n), rest \\in ArgTuples(Tail(ps), n)}
 CallPlan == UNION {{<<s, args>> : args \\in ArgTuples(Sigs[s].ps, Len(Sigs[s].ps))} : s \\in 1..Len(Sigs)}
-ASSUME PrintT(<<"nonreflexive", NonReflexive>>)
-ASSUME PrintT(<<"nontransitive", NonTransitive>>)
-ASSUME PrintT(<<"unsound", Unsound>>)
-ASSUME PrintT(<<"subextra", SubExtra>>)
-ASSUME PrintT(<<"submissing", SubMissing>>)
-ASSUME PrintT(<<"matchdiff", MatchDiff>>)
-ASSUME PrintT(<<"callplan", CallPlan>>)
-ASSUME PrintT(<<"sizes", <<Cardinality(D), Cardinality(UNION {{<<i, j>> : j \\in ImplSup[i]} : i \\in D}),
+(* no ASSUME mentions exported data: a law that fails on the implementation's tables yields a
+   printed set of counterexamples (confirmed through the API, reported as violations), never an
+   aborted TLC run; ASSUME is used for the laws of the pure specification only *)
+ImplInit ==
+  /\\ PrintT(<<"nonreflexive", NonReflexive>>)
+  /\\ PrintT(<<"nontransitive", NonTransitive>>)
+  /\\ PrintT(<<"unsound", Unsound>>)
+  /\\ PrintT(<<"subextra", SubExtra>>)
+  /\\ PrintT(<<"submissing", SubMissing>>)
+  /\\ PrintT(<<"matchdiff", MatchDiff>>)
+  /\\ PrintT(<<"callplan", CallPlan>>)
+  /\\ PrintT(<<"sizes", <<Cardinality(D), Cardinality(UNION {{<<i, j>> : j \\in ImplSup[i]} : i \\in D}),
                             Cardinality(UNION {{<<i, j>> : j \\in SupRow[i]} : i \\in 1..NT}),
                             Cardinality(UNION {{<<v, j>> : j \\in ImplMatch[v]} : v \\in 1..NV}),
                             Cardinality(UNION {{<<v, j>> : j \\in MatchRow[v]} : v \\in 1..NV})>> >>)
-ImplInit == acc = Val(1)
+  /\\ acc = Val(1)
 ImplNext == UNCHANGED acc
 ====
 '''
@@ -702,9 +706,9 @@ OBS_MODULE = '''---- MODULE Obs_C18 ----
 EXTENDS SeqTypes
 Obs == %(obs)s
 Bad == {n \\in 1..Len(Obs) : ~MatchSeq(Obs[n].res, TypeSeq[Obs[n].r])}
-ASSUME PrintT(<<"bad", Bad>>)
-ASSUME PrintT(<<"nobs", Len(Obs)>>)
-ObsInit == acc = Val(1)
+ObsInit == /\\ PrintT(<<"bad", Bad>>)
+           /\\ PrintT(<<"nobs", Len(Obs)>>)
+           /\\ acc = Val(1)
 ObsNext == UNCHANGED acc
 ====
 '''
@@ -839,11 +843,17 @@ def result_kind(pv) -> str:
 
 # ---------------------------------------------------------------------------------------
 
-def tlc_constants(module: str, text: str, wd: str, tier: str, init: str, nxt: str, what: str):
+def tlc_constants(module: str, text: str, wd: str, tier: str, init: str, nxt: str, what: str,
+                  spec_snapshot: str | None = None):
     gen = os.path.join(wd, 'gen')
     os.makedirs(gen, exist_ok=True)
     with open(os.path.join(gen, module + '.tla'), 'w') as f:
         f.write(text)
+    if spec_snapshot:
+        # the generated constants are indexed by the universe printed by the FIRST run: later runs must
+        # see exactly the same SeqTypes.tla even if spec/ is edited meanwhile
+        with open(os.path.join(gen, 'SeqTypes.tla'), 'w') as f:
+            f.write(spec_snapshot)
     cfg = tla.cfg_text(dict(TIERS[tier], MaxDepth=1), spec=None, init=init, next_=nxt)
     return tla.require_ok(tla.run_tlc(module, cfg, wd, workers=2, extra_modules_dir=gen), what)
 
@@ -931,6 +941,8 @@ def run(chk: core.Check) -> None:
     dot = os.path.join(wd, 'g.dot')
     cfg = tla.cfg_text(TIERS[tier], invariants=['Laws'], properties=['TreatLaw'], constraints=['Bounded'])
     r = tla.require_ok(tla.run_tlc('SeqTypes', cfg, wd, dump_dot=dot, workers=8), 'SeqTypes', min_distinct=20)
+    with open(os.path.join(wd, 'SeqTypes.tla')) as f:
+        snapshot = f.read()
     chk.model(f'SeqTypes/{tier}', r)
     types = printed(r.output, 'types')[0]
     values = printed(r.output, 'values')[0]
@@ -1005,7 +1017,7 @@ def run(chk: core.Check) -> None:
     mod = IMPL_MODULE % dict(deft=tla_set(deft), sup=tla_rows(sup, len(types)), match=tla_rows(match, len(values)),
                              matcherr=tla_rows(merr, len(values)), sigs=sigs_tla, k=2 if tier == 'quick' else 3)
     wd2 = os.path.join(chk.scratch, 'impl')
-    r2 = tlc_constants('Impl_C18', mod, wd2, tier, 'ImplInit', 'ImplNext', 'Impl_C18 (exported relations)')
+    r2 = tlc_constants('Impl_C18', mod, wd2, tier, 'ImplInit', 'ImplNext', 'Impl_C18 (exported relations)', snapshot)
     chk.model(f'Impl_C18/{tier}', r2)
     sizes = printed(r2.output, 'sizes')[0]
     chk.coverage['exported'] = dict(types_expressible=sizes[0], impl_subtype_pairs=sizes[1], spec_subtype_pairs=sizes[2],
@@ -1101,7 +1113,7 @@ def run(chk: core.Check) -> None:
         raise tla.MachineryError('no function call returned a value: conformance check is vacuous')
     obs = '<<' + ',\n  '.join('[r |-> %d, res |-> %s]' % k for k in obs_rows) + '>>'
     wd3 = os.path.join(chk.scratch, 'obs')
-    r3 = tlc_constants('Obs_C18', OBS_MODULE % dict(obs=obs), wd3, tier, 'ObsInit', 'ObsNext', 'Obs_C18 (call results)')
+    r3 = tlc_constants('Obs_C18', OBS_MODULE % dict(obs=obs), wd3, tier, 'ObsInit', 'ObsNext', 'Obs_C18 (call results)', snapshot)
     chk.model(f'Obs_C18/{tier}', r3)
     bad = set(printed(r3.output, 'bad')[0])
     if printed(r3.output, 'nobs')[0] != len(obs_rows):
